@@ -43,6 +43,7 @@ def check(run, repo, tier):
   from ._extra import c13_reset_all_keys, c14_sortkey_total_order
   V(run, repo, c13_reset_all_keys, "C13-R2")
   V(run, repo, c14_sortkey_total_order, "C13-R5")
+  H.finish_views(run, repo)
 
 
 def r4_no_captured_columns(run, w):
@@ -210,7 +211,7 @@ def r1_key_normalisation(run, w):
       for el in comps or []:
         ok = ok and len(el.gens) == 1 and not el.conds and key_columns(el.gens[0][1]) and \
             _is_extract(el.elt) and \
-            text(flow.du.inline(el.elt.args[0], stop=(text(el.gens[0][0]),))) == \
+            text(H.inline(flow, el.elt.args[0], stop=(text(el.gens[0][0]),))) == \
             "getattr(%s, %s)" % (rec, text(el.gens[0][0]))
     elif isinstance(v, ast.Call) and endswith(dotted(v.func), "product") and \
         len(v.args) == 1 and isinstance(v.args[0], ast.Starred):
@@ -291,7 +292,7 @@ def r1_key_normalisation(run, w):
     def probe(e):
       """e is the probe value as passed by the caller: kwargs[col_id] (through locals)."""
       return any(text(c.value) == raw or
-                 (isinstance(c.value, ast.Name) and text(flow.du.inline(c.value)) == raw)
+                 (isinstance(c.value, ast.Name) and text(H.inline(flow, c.value)) == raw)
                  for c in H.value_cases(fn, flow, e, flow.node_of(e))) \
           if isinstance(e, ast.Name) else text(e) == raw
     n_conv = n_cont = n_other = 0
@@ -378,7 +379,7 @@ def r2_simple_update(run, w):
   xcfg = fn.xcfg
   rec = fn.fi.params()[1]
   row = rec + "._row_id"
-  inl = lambda e: text(flow.du.inline(e))
+  inl = lambda e: text(H.inline(flow, e))
   OLD_T = "self._get_mapped_key(%s)" % row
   NEW_T = "self.get_new_keys_iter(%s)[0]" % rec
   news = [s for s in walk_no_nested(fn.node) if isinstance(s, ast.Assign) and
@@ -402,7 +403,7 @@ def r2_simple_update(run, w):
   same = [c for c in cases if any(unchanged(t, p) for (t, p) in c.atoms)]
   changed = [c for c in cases if c not in same]
   def empty_set(e):
-    e = flow.du.inline(e) if e is not None else None
+    e = H.inline(flow, e) if e is not None else None
     return isinstance(e, ast.Call) and dotted(e.func) in ("set", "frozenset") and not e.args
   run.ob(R2, fn.qualname, "if new_key == old_key: return set()",
          "nothing is reported (and nothing done) only when the key is unchanged",
@@ -459,7 +460,7 @@ def r2_contains_update(run, w):
   flow = H.Flow(fn)
   rec = fn.fi.params()[1]
   row = rec + "._row_id"
-  inl = lambda e: text(flow.du.inline(e))
+  inl = lambda e: text(H.inline(flow, e))
   NEW_T = "set(self.get_new_keys_iter(%s))" % rec
   OLD_T = "self.get_mapped_keys(%s)" % row
   texts = {inl(c) for c in calls_in(fn.node)}
@@ -541,7 +542,7 @@ def r3_lookup_one(run, w):
     cases = [c for c in H.return_cases(fn.node)]
     if len(cases) != 1 or cases[0].value is None or cases[0].atoms:
       return None
-    return text(flow.du.inline(cases[0].value))
+    return text(H.inline(flow, cases[0].value))
   fn = w.fn("table.Table.lookup_one_record")
   kw = fn.node.args.kwarg.arg if fn.node.args.kwarg else None
   du = H.Flow(fn).du
@@ -567,7 +568,7 @@ def r3_lookup_one(run, w):
     """True/False when the atoms say the row list is non-empty / empty, else None."""
     out = set()
     for (t, p) in atoms:
-      tt = text(flow.du.inline(t))
+      tt = text(H.inline(flow, t))
       if tt in ("self._row_ids", "len(self._row_ids)", "len(self._row_ids) > 0",
                 "len(self._row_ids) != 0", "len(self._row_ids) >= 1"):
         out.add(p)
@@ -583,7 +584,7 @@ def r3_lookup_one(run, w):
       continue
     for vc in H.value_cases(go, flow, v.args[0], flow.node_of(v)):
       ne = nonempty(list(c.atoms) + list(vc.atoms))
-      tv = text(flow.du.inline(vc.value))
+      tv = text(H.inline(flow, vc.value))
       if tv == "self._row_ids[0]" and ne is True:
         n_first += 1
       elif isinstance(vc.value, ast.Constant) and vc.value.value == 0 and \
